@@ -265,6 +265,8 @@ def step(st: St, op: tuple, dev: Dev):
         if op[1] in st.vars or op[1] in PROTECTED_VARS:
             return False, None
         return True, replace(st, vars=st.vars + (op[1],))
+    if k == "estimate":  # estimate_added_delay: an inspection call like the others once a variable was used; otherwise not modelled
+        return (False, None) if st.param else (None, st)
     if k == "ro":  # inspection calls
         if op[1] == "str":
             return True, st
